@@ -43,6 +43,14 @@ theorem C04_next_response_matches (reqs : List Nat) (hnd : reqs.Nodup) (acts : L
   exact ⟨{ s with table := s.table.erase t, responded := t :: s.responded, matched := t :: s.matched },
     by simp [step, hw, hn, htab], hg.failed_nil, by simp⟩
 
+/-- Responses nobody is waiting for — answers to calls the library does not track, duplicated or stray
+`_result`s — are refused at any point of any schedule and change nothing: the table and everything matched so
+far stay as they were (so they cannot make a later genuine response fail). -/
+theorem C04_stray_refused (s : St) (t : Nat) (ht : t ∉ s.table) :
+    ∃ s', step s (.stray t) = some s' ∧ s'.table = s.table ∧ s'.matched = s.matched ∧ s'.failed = s.failed ∧
+      s'.wire = s.wire ∧ s'.prog = s.prog ∧ s'.refused = t :: s.refused :=
+  ⟨{ s with refused := t :: s.refused }, by simp [step, ht], rfl, rfl, rfl, rfl, rfl, rfl⟩
+
 /-- The window of the old order (defect F4, repaired): with write-then-register, the schedule
 *write; peer answers; lookup* reaches "No matched request" although the request had been sent. -/
 theorem C04_window_witness :
@@ -59,5 +67,8 @@ theorem C04_window_closed :
 example : (run (init .registerThenWrite [1, 2, 3]) [.w, .w, .r 1, .w, .w, .w, .w, .r 3, .r 2]).map
     (fun s => (s.failed, s.matched, s.table)) = some ([], [2, 3, 1], []) := by decide
 example : ([1, 2, 3] : List Nat).Nodup := by decide
+-- strays interleaved: requests 1 (connect) and 4 (createStream) tracked; answers to 2, 3 and a repeated 1 refused
+example : (run (init .registerThenWrite [1, 4]) [.w, .w, .w, .w, .stray 2, .stray 3, .r 1, .stray 1, .r 4]).map
+    (fun s => (s.failed, s.matched, s.refused)) = some ([], [4, 1], [1, 3, 2]) := by decide
 
 end Oryx.Props.C04
